@@ -29,7 +29,7 @@ type c18Case struct {
 func init() {
 	engine.Register(&engine.Check{
 		ID: "C18", Level: "exploration",
-		Rule:        "d in 0..15 x float lattice (every float with <=7 (quick) / <=9 (thorough) significant mantissa bits and exponent in [-70,70] / [-100,100], both signs; 8 decimal mantissas x 10^-8..10^12) placed in points; for every d in 0..15 and m in [-30,30] the decimal tie (m+1/2)*10^-d rounded to float64 and its +-1,+-2 ulp neighbours; 10^k-eps values, +-0, min denormal, 1e300; x one valid geometry per kind and six geometries with empty members (MultiPoint with an empty point in the middle / at the end, MultiLineString and MultiPolygon with an empty member, empty LineString and Polygon) in XY/XYZ/XYM/XYZM (WKT) and XY/XYZ/XYZM (GeoJSON, without bbox and with bbox in both option orders) filled from the tie values. Every encode under test is the second call of a two-call history whose first call fails after partial output. Oracle: every emitted number matches -?digits(.digits{1,d})? with no trailing zero; as an exact rational it differs from the exact input ordinate by <= 1/2*10^-d; the output parses (wkt.Unmarshal / JSON) to the same type, structure and number of ordinates; bbox numbers likewise against the exact min/max. distinct_nontrivial = distinct (codec, geometry, d, bbox) tuples Also: LinearRing values given to the WKT encoder directly (closed in X,Y only, fully closed, open) and polygon rings whose closing position carries its own M. Round 7: every GeoJSON case calls a second time with the same option slice (identical output); every tuple of 2..4 values over a 12-value magnitude menu (integral, fractional, tiny, 2^52-0.5, 2^52, 2^53+2, 1e20, 1e300) as points and two-vertex lines.",
+		Rule:        "d in 0..15 x float lattice (every float with <=7 (quick) / <=9 (thorough) significant mantissa bits and exponent in [-70,70] / [-100,100], both signs; 8 decimal mantissas x 10^-8..10^12) placed in points; for every d in 0..15 and m in [-30,30] the decimal tie (m+1/2)*10^-d rounded to float64 and its +-1,+-2 ulp neighbours; 10^k-eps values, +-0, min denormal, 1e300; x one valid geometry per kind and six geometries with empty members (MultiPoint with an empty point in the middle / at the end, MultiLineString and MultiPolygon with an empty member, empty LineString and Polygon) in XY/XYZ/XYM/XYZM (WKT) and XY/XYZ/XYZM (GeoJSON, without bbox and with bbox in both option orders) filled from the tie values. Every encode under test is the second call of a two-call history whose first call fails after partial output. Oracle: every emitted number matches -?digits(.digits{1,d})? with no trailing zero; as an exact rational it differs from the exact input ordinate by <= 1/2*10^-d; the output parses (wkt.Unmarshal / JSON) to the same type, structure and number of ordinates; bbox numbers likewise against the exact min/max. distinct_nontrivial = distinct (codec, geometry, d, bbox) tuples Also: LinearRing values given to the WKT encoder directly (closed in X,Y only, fully closed, open) and polygon rings whose closing position carries its own M. Round 7: every GeoJSON case calls a second time with the same option slice (identical output); every tuple of 2..4 values over a 12-value magnitude menu (integral, fractional, tiny, 2^52-0.5, 2^52, 2^53+2, 1e20, 1e300) as points and two-vertex lines. Round 10: collection shapes (flat, nested, with an empty nested collection), the tree of geometry types compared.",
 		Run:         c18Run,
 		Replay:      func(c *engine.Ctx, kind string, raw json.RawMessage) { c18Exec(c, decodeCase[c18Case](raw)) },
 		Assumptions: []string{"finite ordinates; math/big decimal parsing exact"},
